@@ -289,6 +289,11 @@ def finish(ctx, audit, level_note_assumptions, explanation, extra_cov=None):
         'known_findings_reobserved': [k['id'] for k in ctx.known],
         'exhaustive': False,
     }
+    if not audit['obligations']:
+        # no theorem is listed for this property yet: do not present proof-level keys (the exploration counts remain)
+        for k in ('obligations', 'discharged'):
+            cov.pop(k)
+        cov['note'] = 'no theorem listed in lean/obligations.json for this property'
     if 'leanchecker' in audit:
         cov['leanchecker'] = audit['leanchecker']
     if extra_cov:
